@@ -89,7 +89,7 @@ def _run_any(spec):
 
         w = ycfg.get('window')
         wins = [{'file': w['file'], 'line': w['lineno'], 'nth': w.get('nth', 0), 'action': 'pause', 'name': w.get('name'),
-                 'wait': w.get('wait', 0.2)}] if w else ()
+                 'wait': w.get('wait', 0.2), 'rmw': bool(w.get('rmw'))}] if w else ()
         inj = yieldinj.Injector(p=ycfg.get('p', 0.0), seed=spec.get('seed', 0), windows=wins,
                                 files=ycfg.get('files') or (['__init__.py'] if fe == 'legacy' else ['processpool.py'])).install()
     try:
